@@ -82,7 +82,7 @@ def _as_str(v):
     return str(v)
 
 
-def loose_diff(exp, got, path=""):
+def loose_diff(exp, got, path="", numeric_tags=()):
     """exp/got: ProtocolTreeNode.  None when equal under the C09 comparator, else (signature, detail)."""
     here = path + "/" + str(exp.tag)
     if got is None:
@@ -100,7 +100,10 @@ def loose_diff(exp, got, path=""):
     ed = exp.data if exp.data else None
     gd = got.data if got.data else None
     if ed is not None or gd is not None:
-        if ed is None or gd is None or _as_str(ed) != _as_str(gd):
+        if ed is not None and gd is not None and exp.tag in numeric_tags and isinstance(ed, (bytes, bytearray)) \
+                and isinstance(gd, (bytes, bytearray)) and int.from_bytes(ed, "big") == int.from_bytes(gd, "big"):
+            pass
+        elif ed is None or gd is None or _as_str(ed) != _as_str(gd):
             return ("content_changed", "%s data %r -> %r" % (here, _short(ed), _short(gd)))
     ec, gc = list(exp.children), list(got.children)
     unmatched = list(gc)
@@ -108,7 +111,7 @@ def loose_diff(exp, got, path=""):
     for c in ec:
         hit = None
         for g in unmatched:
-            if loose_diff(c, g, here) is None:
+            if loose_diff(c, g, here, numeric_tags) is None:
                 hit = g
                 break
         if hit is not None:
@@ -116,7 +119,7 @@ def loose_diff(exp, got, path=""):
         elif first_problem is None:
             same_tag = [g for g in unmatched if g.tag == c.tag]
             if same_tag:
-                first_problem = loose_diff(c, same_tag[0], here)
+                first_problem = loose_diff(c, same_tag[0], here, numeric_tags)
             else:
                 first_problem = ("child_lost:%s" % c.tag, "%s lost child <%s>" % (here, c.tag))
     if first_problem:
@@ -187,7 +190,7 @@ def run_case(case):
         if back is None:
             out.fail("recv", "recv:%s:serialise_returns_none" % rec.name, {})
             return out
-        d = loose_diff(node, back)
+        d = loose_diff(node, back, "", getattr(rec, "numeric_tags", ()))
         if d:
             out.fail("recv", "recv:%s:%s" % (rec.name, d[0]), {"diff": d[1], "entity_class": type(ent).__name__})
         return out
